@@ -197,3 +197,8 @@ _add("C05", "a throttled value admitted without waiting leaves its last-pass cel
 _add("C11", "no write leaves a negative token balance in the warm-up calculator's storedTokens (published values are constants >= 0, the refill result or guarded differences; an in-place subtraction is followed by a reset to 0 on the negative branch).")
 _add("C17", "the comparator ordering metric log files uses a lexicographic string comparison only where it agrees with the numeric order of roll numbers (equal lengths established, or differing date parts).")
 _add("C06", "everything that releases the per-value unit on exit runs inside the once-only section of Exit (two overlapping Exit calls release one unit, not two).")
+_add("C14", "in each reuse-index search the equality test runs for every old candidate (it is not skipped on the state of the statistic-reuse search).")
+_add("C13", "a loader answers 'unchanged' only under reflect.DeepEqual of the cached input and its argument; IsValidSystemRule accepts a rule only where TriggerCount >= 0 was established; the equality test of the reuse-index search is not skipped.")
+_add("C07", "system.LoadRules answers 'unchanged' only under reflect.DeepEqual (a reload that changes only the strategy is applied); IsValidSystemRule rejects a negative trigger for every metric type.")
+_add("C02", "the Direct calculator hands over the rule's threshold unchanged (constructor stores its parameter, CalculateAllowedTokens returns the field, constructor calls pass Rule.Threshold).")
+_add("C10", "the Direct calculator's threshold reaches the throttling checker unchanged.")
